@@ -24,7 +24,7 @@ _get_ident = _thread.get_ident
 
 def _on_line(code, line):
     k = P.KERNEL
-    if k is None or not k.running or _get_ident() != k.cur_ident:
+    if k is None or not k.running or not k.trace_on or _get_ident() != k.cur_ident:
         return None
     info = _registered.get(code)
     if info is None:
@@ -43,7 +43,7 @@ def _on_line(code, line):
 
 def _on_instr(code, offset):
     k = P.KERNEL
-    if k is None or not k.running or not k.opcode_on or _get_ident() != k.cur_ident:
+    if k is None or not k.running or not k.opcode_on or not k.trace_on or _get_ident() != k.cur_ident:
         return None
     info = _registered.get(code)
     if info is None or code not in _instr:
